@@ -1692,6 +1692,21 @@ impl World {
                 );
             }
         }
+        // when the application writes the snapshot the node's active configuration is the
+        // snapshot's: Raft::restore switched to it when the message was stepped, and nothing the
+        // application legally did since (finishing older handed-out entries) may have changed it
+        {
+            let l = self.live(i).unwrap();
+            let mine = RefConf::from_cs(&l.rn.raft.prs().conf().to_conf_state());
+            let snap = RefConf::from_cs(m.get_conf_state());
+            if mine != snap {
+                ctx.v(
+                    "C09",
+                    "configuration at snapshot install is not the snapshot's",
+                    format!("node {} installs the snapshot at {} with configuration {:?}, its tracker has {:?}", id, m.index, snap, mine),
+                );
+            }
+        }
         let l = self.nodes[i].live.as_mut().unwrap();
         l.to_apply.clear();
     }
